@@ -106,53 +106,60 @@ Section F.
   Variable pers : bool.
   Variable P : prov.
   Variable R : St P -> store -> Prop.
-  Hypothesis HP : sim wf1_op pers P R.
+  (* [G]: guard on the operations of the formatted store; [G']: guard of the store below; every operation handed down
+     satisfies G' *)
+  Variables G G' : op -> bool.
+  Hypothesis HGw : forall o, G o = true -> wf1_op o = true.
+  Hypothesis HGput : forall k v t, G (Put k v t) = true -> G' (Put (fk F k) (fv F v) (map (fmt_tag F) t)) = true.
+  Hypothesis HGq : forall c, G (Query [c]) = true -> G' (Query [fcrit F c]) = true.
+  Hypothesis HGb : forall b, G (Batch b) = true -> G' (Batch (map (fbop F) b)) = true.
+  Hypothesis HGs : forall o, match o with Get _ | GetTags _ | GetBulk _ | Delete _ | Flush | Reopen => G' o = true | _ => True end.
+  Hypothesis HP : sim G' pers P R.
 
   Definition fmt_rel (m : St (formatted_det F P)) (a : store) : Prop := R m (fmap a).
 
-  Lemma formatted_det_sim : sim wf1_op pers (formatted_det F P) fmt_rel.
+  Lemma formatted_det_sim_g : sim G pers (formatted_det F P) fmt_rel.
   Proof.
     intros m a o Ho HR. unfold fmt_rel in *.
     destruct o as [k v t|k|k|ks|q|k|b| |]; cbn [step formatted_det fdet_step spec_step].
     - (* Put *) destruct (valid_put k v t) eqn:Ev; [|cbn; auto].
-      pose proof (HP m (fmap a) (Put (fk F k) (fv F v) (map (fmt_tag F) t)) eq_refl HR) as [H1 H2].
+      pose proof (HP m (fmap a) (Put (fk F k) (fv F v) (map (fmt_tag F) t)) (HGput k v t Ho) HR) as [H1 H2].
       destruct (step P m (Put (fk F k) (fv F v) (map (fmt_tag F) t))) as [m1 r]. cbn [fst snd spec_step] in H1, H2.
       rewrite (valid_put_fmt k v t Ev) in H1, H2. cbn [fst snd] in *. subst r. cbn [fst snd is_done]. split; [|reflexivity].
       rewrite <- (put_fmap a k (v, t)). exact H1.
     - (* Get *) destruct (k =? 0) eqn:Ek; [cbn; auto|].
-      pose proof (HP m (fmap a) (Get (fk F k)) eq_refl HR) as [H1 H2].
+      pose proof (HP m (fmap a) (Get (fk F k)) (HGs (Get (fk F k))) HR) as [H1 H2].
       destruct (step P m (Get (fk F k))) as [m1 r]. cbn [fst snd spec_step] in H1, H2.
       rewrite fk_zero, Ek in H1, H2. cbn [fst snd] in *. subst r. split; [exact H1|].
       rewrite lookup_fmap. destruct (lookup a k) as [[v t]|]; cbn; [rewrite (ok_uv F OK)|]; reflexivity.
     - (* GetTags *) destruct (k =? 0) eqn:Ek; [cbn; auto|].
-      pose proof (HP m (fmap a) (GetTags (fk F k)) eq_refl HR) as [H1 H2].
+      pose proof (HP m (fmap a) (GetTags (fk F k)) (HGs (GetTags (fk F k))) HR) as [H1 H2].
       destruct (step P m (GetTags (fk F k))) as [m1 r]. cbn [fst snd spec_step] in H1, H2.
       rewrite fk_zero, Ek in H1, H2. cbn [fst snd] in *. subst r. rewrite lookup_fmap.
       destruct (lookup a k) as [[v t]|] eqn:Hl; cbn [option_map fe fst snd].
-      + pose proof (HP m1 (fmap a) (Get (fk F k)) eq_refl H1) as [H3 H4].
+      + pose proof (HP m1 (fmap a) (Get (fk F k)) (HGs (Get (fk F k))) H1) as [H3 H4].
         destruct (step P m1 (Get (fk F k))) as [m2 r2]. cbn [fst snd spec_step] in H3, H4.
         rewrite fk_zero, Ek in H3, H4. cbn [fst snd] in *. subst r2. rewrite lookup_fmap, Hl. cbn.
         rewrite unfmt_tags. auto.
       + cbn. auto.
     - (* GetBulk *) destruct (is_nil ks || has_empty_key ks) eqn:E; [cbn; auto|].
-      pose proof (HP m (fmap a) (GetBulk (map (fk F) ks)) eq_refl HR) as [H1 H2].
+      pose proof (HP m (fmap a) (GetBulk (map (fk F) ks)) (HGs (GetBulk (map (fk F) ks))) HR) as [H1 H2].
       destruct (step P m (GetBulk (map (fk F) ks))) as [m1 r]. cbn [fst snd spec_step] in H1, H2.
       assert (E' : is_nil (map (fk F) ks) || has_empty_key (map (fk F) ks) = false).
       { rewrite empty_key_fk. destruct ks; [discriminate|exact E]. }
       match type of H2 with context [if ?c then _ else _] => replace c with false in H1, H2 by (symmetry; exact E') end.
       cbn [fst snd] in *. subst r. split; [exact H1|]. cbn [snd]. f_equal. apply bulk_fmt.
-    - (* Query *) destruct q as [|c [|c2 q2]]; [cbn; auto| |cbn in Ho; try rewrite andb_false_r in Ho; discriminate].
+    - (* Query *) destruct q as [|c [|c2 q2]]; [cbn; auto| |apply HGw in Ho; cbn in Ho; try rewrite andb_false_r in Ho; discriminate].
       cbn [is_nil].
-      pose proof (HP m (fmap a) (Query [fcrit F c]) eq_refl HR) as [H1 H2].
+      pose proof (HP m (fmap a) (Query [fcrit F c]) (HGq c Ho) HR) as [H1 H2].
       destruct (step P m (Query [fcrit F c])) as [m1 r]. cbn [fst snd spec_step is_nil] in H1, H2. subst r.
       split; [exact H1|]. cbn [snd]. rewrite qeval_fmt, unfmt_fmap. reflexivity.
     - (* Delete *) destruct (k =? 0) eqn:Ek; [cbn; auto|].
-      pose proof (HP m (fmap a) (Delete (fk F k)) eq_refl HR) as [H1 H2].
+      pose proof (HP m (fmap a) (Delete (fk F k)) (HGs (Delete (fk F k))) HR) as [H1 H2].
       destruct (step P m (Delete (fk F k))) as [m1 r]. cbn [fst snd spec_step] in H1, H2.
       rewrite fk_zero, Ek in H1, H2. cbn [fst snd] in *. subst r. cbn [fst snd is_done]. split; [|reflexivity]. rewrite <- remove_fmap. exact H1.
     - (* Batch *)
-      assert (Hw : wf1_op (Batch (map (fbop F) b)) = true).
-      { unfold wf1_op in *. cbn in *. rewrite andb_true_r in *. apply wf_batch_fmt. exact Ho. }
+      pose proof (HGb b Ho) as Hw.
       pose proof (HP m (fmap a) (Batch (map (fbop F) b)) Hw HR) as [H1 H2].
       destruct (has_empty_key (map bop_key b)) eqn:E.
       + rewrite orb_true_r. cbn. auto.
@@ -161,10 +168,16 @@ Section F.
         * cbn in *. subst r. cbn. auto.
         * cbn [map is_nil orb fst snd] in *. subst r. cbn [fst snd is_done]. split; [|reflexivity].
           change (fbop F x :: map (fbop F) rb) with (map (fbop F) (x :: rb)) in H1. rewrite apply_batch_fmap in H1. exact H1.
-    - (* Flush *) pose proof (HP m (fmap a) Flush eq_refl HR) as [H1 H2].
+    - (* Flush *) pose proof (HP m (fmap a) Flush (HGs Flush) HR) as [H1 H2].
       destruct (step P m Flush) as [m1 r]. cbn [fst snd spec_step] in *. subst r. cbn. auto.
-    - (* Reopen *) pose proof (HP m (fmap a) Reopen eq_refl HR) as [H1 H2].
+    - (* Reopen *) pose proof (HP m (fmap a) Reopen (HGs Reopen) HR) as [H1 H2].
       destruct (step P m Reopen) as [m1 r]. cbn [fst snd spec_step] in *. subst r. cbn. split; [|reflexivity].
       destruct pers; exact H1.
   Qed.
 End F.
+
+Lemma formatted_det_sim (F : formatter) (OK : fmt_ok F) pers (P : prov) R :
+  sim wf1_op pers P R -> sim wf1_op pers (formatted_det F P) (fmt_rel F P R).
+Proof. intros HP. apply (formatted_det_sim_g F OK pers P R wf1_op wf1_op); auto.
+  - intros b Hb. unfold wf1_op in *. cbn in *. rewrite andb_true_r in *. apply (wf_batch_fmt F OK). exact Hb.
+  - intros o. destruct o; auto. Qed.
